@@ -45,6 +45,11 @@ def instances(tier, seed):
     # clipping thresholds moved away from their initial values, as after training
     sp = dict(progs[0], wtype='layer', w=[2, 8], a=[4, 8], clip=True)
     out.append({'id': mpslib.prog_id(sp), 'spec': sp, 'wseed': seed})
+    # the coefficients are written into a model that has already been evaluated (through .data / in place under no_grad)
+    for s_ in ({'fam': 'ML', 'bn': False}, {'fam': 'MA'}):
+        for hist in ('data', 'nograd'):
+            sp = dict(s_, wtype='layer', w=[2, 8], a=[4, 8])
+            out.append({'id': mpslib.prog_id(sp) + f':after_eval+{hist}', 'spec': sp, 'wseed': seed, 'hist': hist})
     if tier == 'thorough':
         for s in ({'fam': 'MA', 'clip': True}, {'fam': 'ML', 'bn': True, 'clip': True}):
             sp = dict(s, wtype='layer', w=[2, 8], a=[4, 8])
@@ -101,7 +106,10 @@ def chain_problem(spec, summ):
 def concrete_case(rec):
     spec = rec['spec']
     m, model, shape = mpslib.make_mps(spec, rec.get('wseed', 0))
-    mpslib.set_alphas(m, rec['alphas'])
+    if rec.get('hist'):
+        with torch.no_grad():
+            m(torch.zeros((1,) + tuple(shape)))          # the model has been evaluated before its coefficients are updated
+    mpslib.set_alphas(m, rec['alphas'], rec.get('hist') or 'nograd')
     x = torch.tensor([float(Fraction(v)) for v in rec['x']], dtype=torch.float32).reshape((1,) + tuple(shape))
     with torch.no_grad():
         y0 = m(x)
@@ -138,10 +146,17 @@ def run_instance(p):
     res = InstanceResult(p['id'])
     spec, wseed, selftest = p['spec'], p.get('wseed', 0), p.get('selftest', False)
     m, model, shape = mpslib.make_mps(spec, wseed)
+    hist = p.get('hist')
+
+    def prefix():
+        with torch.no_grad():
+            m(torch.zeros((1,) + tuple(shape)))
 
     def fn(ex):
         pairs, sy = mpslib.fresh_alphas(m, ex)
-        with SymMode(), swapped_params(pairs), mpslib.saved_thetas(m):
+        # hist: the model has a history (an eval-mode forward pass at the previous coefficients) and the symbolic coefficients are WRITTEN
+        # into the existing Parameter objects (through .data or in place), instead of being presented as fresh objects
+        with SymMode(), mpslib.saved_thetas(m), (st.written_params(pairs, prefix, hist) if hist else swapped_params(pairs)):
             x = SymTensor.fresh('x', (1,) + tuple(shape))
             for v in x.elems():
                 ex.assume(v >= 0, v <= 8)
@@ -214,7 +229,7 @@ def run_instance(p):
             alphas, xv = mpslib.values_of(mm, sy), [st.model_value(mm, v) for v in x.elems()]
         if not problems:
             if n <= 3 or n % 8 == 0:
-                o = concrete_case({'spec': spec, 'wseed': wseed, 'alphas': jsonable(alphas), 'x': jsonable(xv)})
+                o = concrete_case({'spec': spec, 'wseed': wseed, 'alphas': jsonable(alphas), 'x': jsonable(xv), 'hist': hist})
                 if n <= 2:
                     res.sample({'program': mpslib.prog_id(spec), 'alphas': alphas, 'x': xv, 'summary': summ, 'bit_identical_in_torch': o.get('diff') == 0.0})
                 if o['err'] is None and o['diff'] == 0.0 and o['summary'] == summ:
@@ -223,8 +238,8 @@ def run_instance(p):
                     res.errors.append(f'engine says identical but plain torch: {str(o)[:400]}')
             continue
         obs, text, _ = problems[0]
-        rec = {'spec': spec, 'wseed': wseed, 'alphas': alphas, 'x': xv, 'observable': obs, 'summary': summ,
-               'key': f'{mpslib.prog_id(spec)}|{obs}|{"".join(str(v.get("w_precision", "")) for v in summ.values())}' + ('|selftest' if selftest else ''),
+        rec = {'spec': spec, 'wseed': wseed, 'alphas': alphas, 'x': xv, 'observable': obs, 'summary': summ, 'hist': hist,
+               'key': f'{mpslib.prog_id(spec)}' + (f':after_eval+{hist}' if hist else '') + f'|{obs}|{"".join(str(v.get("w_precision", "")) for v in summ.values())}' + ('|selftest' if selftest else ''),
                'what': f'{mpslib.prog_id(spec)}: {obs}: {text} at summary {summ}'[:500]}
         if selftest:
             res.violations.append(jsonable(rec))
